@@ -346,6 +346,21 @@ def witness_search(tier, seed):
                 if got != exp:
                     return dict(input=dict(grouped=[[repr(x) for x in row] for row in grouped], option="KEEP_ORPHAN"),
                                 detail=f"got {got!r}; the statement prescribes {exp!r}")
+    # a note inside the second of two open holds (the hold that does not end first)
+    for opt in g.OrphanedNotes:
+        a = g.NoteWithTail(Beat(0), 0, T.HOLD_HEAD, Beat(2), 0, None)
+        b = g.NoteWithTail(Beat(0), 1, T.ROLL_HEAD, Beat(4), 0, None)
+        for col, bt in ((1, Beat(1)), (0, Beat(1)), (1, Beat(3))):
+            inner = n.Note(bt, col, T.TAP, 0, None)
+            try:
+                got = list(g.ungroup_notes([[a, b], [inner]], orphaned_notes=opt))
+            except g.OrphanedNoteException:
+                got = "raised"
+            plain = sorted([n.Note(Beat(0), 0, T.HOLD_HEAD, 0, None), n.Note(Beat(0), 1, T.ROLL_HEAD, 0, None), n.Note(Beat(2), 0, T.TAIL, 0, None),
+                            n.Note(Beat(4), 1, T.TAIL, 0, None)])
+            exp = {g.OrphanedNotes.RAISE_EXCEPTION: "raised", g.OrphanedNotes.KEEP_ORPHAN: sorted(plain + [inner]), g.OrphanedNotes.DROP_ORPHAN: plain}[opt]
+            if got != exp:
+                return dict(input=dict(grouped=[[repr(a), repr(b)], [repr(inner)]], option=str(opt)), detail=f"got {got!r}; the statement prescribes {exp!r}")
     for ks in (None, 7):
         for opt in g.OrphanedNotes:
             item = g.NoteWithTail(Beat(1), 2, T.HOLD_HEAD, Beat(3), 1, ks)
